@@ -251,6 +251,12 @@ func runC01(r *core.Run) {
 	for _, wr := range []string{"balanced/raw=false/v1=false", "balanced/raw=true/v1=true", "trickle/raw=false/v1=false", "ours"} {
 		cases = append(cases, fileCase{Writer: wr, W: 174, Chunker: "size-3", L: 3 * nLeaves, K: 3, Pattern: "counter"})
 	}
+	// the largest chunk the chunker package accepts (1 MiB)
+	for _, ch := range []string{"size-1048575", "size-1048576"} {
+		for _, L := range []int{1048576, 1048577} {
+			cases = append(cases, fileCase{Writer: "ours", W: 2, Chunker: ch, L: L, K: 4099, Pattern: "distinct"})
+		}
+	}
 	// content-defined and default chunkers
 	cdc := []fileCase{}
 	rabinMax := 120
